@@ -12,7 +12,7 @@ From Coq Require Import List Bool Ascii String.
 From UV.Base Require Import Res.
 From UV.Py Require Import PyStr.
 From UV.Schemes Require Import Common Generic LegacyOpenssl Gentoo Debian.
-From UV.Schemes Require Import Rpm Gem Arch Openssl RoundTrips Semver Pypi Maven Nuget Conan RoundTrips2 SemverRoundTrip NugetRoundTrip DebianRoundTrip RpmRoundTrip.
+From UV.Schemes Require Import Rpm Gem Arch Openssl RoundTrips Semver Pypi Maven Nuget Conan RoundTrips2 RoundTrips3 SemverRoundTrip NugetRoundTrip DebianRoundTrip RpmRoundTrip.
 From Coq Require Import ZArith.
 Import ListNotations.
 
@@ -120,6 +120,17 @@ Example C11_rpm_roundtrip_refuted_without_the_hypothesis :
   rpm_ctor s = Ok v /\ rpm_ctor (rpm_str v) = Ok w /\ v <> w.
 Proof. split; [vm_compute; reflexivity|]. split; [vm_compute; reflexivity|discriminate]. Qed.
 
+(* maven, conan: the two classes that keep the text they were built from: the printed form is the normalised input
+   (whitespace removed, leading "v" stripped) and constructing from it gives the same value again *)
+Theorem C11_maven_conan_roundtrip : forall s,
+  (forall v, maven_ctor s = Ok v -> maven_str v = normalize s /\ maven_ctor (maven_str v) = Ok v) /\
+  (forall v, conan_ctor s = Ok v -> conan_str v = normalize s /\ conan_ctor (conan_str v) = Ok v).
+Proof. intros s. split; intros v; [apply maven_ctor_roundtrip|apply conan_ctor_roundtrip]. Qed.
+Example C11_maven_conan_roundtrip_inhabited :
+  (exists v, maven_ctor (list_ascii_of_string " v1.0-RC 1") = Ok v /\ maven_str v = list_ascii_of_string "1.0-RC1") /\
+  (exists v, conan_ctor (list_ascii_of_string " V1.2-pre+b 1") = Ok v /\ conan_str v = list_ascii_of_string "1.2-pre+b1").
+Proof. split; eexists; split; vm_compute; reflexivity. Qed.
+
 Print Assumptions C11_generic.
 Print Assumptions C11_gentoo.
 Print Assumptions C11_alpine.
@@ -133,4 +144,5 @@ Print Assumptions C11_semver_family_roundtrip.
 Print Assumptions C11_nuget_roundtrip.
 Print Assumptions C11_deb_roundtrip.
 Print Assumptions C11_rpm_roundtrip.
+Print Assumptions C11_maven_conan_roundtrip.
 Print Assumptions C11_rpm_roundtrip_refuted_without_the_hypothesis.
